@@ -69,16 +69,22 @@ Definition csr_rows (c : csr) (n : nat) : adjrows :=
 
 Inductive node_order := ORandom | ODecreasing | OIncreasing | ONone.
 (** the test of _instantiate_vars deciding "clustering mode" (every node is updated, seeds included):
-    current source [len(set(labels)) == n] = [CT_distinct]; [CT_nonneg] = "no negative value". *)
-Inductive cluster_test := CT_distinct | CT_nonneg.
+    current source [len(set(labels)) == n] = [CT_distinct]; [CT_nonneg] = "no negative value";
+    [CT_distinct_nonneg] = both. *)
+Inductive cluster_test := CT_distinct | CT_nonneg | CT_distinct_nonneg.
 (** length of the vector of ones used as [data] when weighted=False: [n] (current source) or nnz. *)
 Inductive ones_size := Ones_n | Ones_nnz.
-Record pvariant := { pv_kernel : kvariant; pv_ctest : cluster_test; pv_ones : ones_size }.
+(** how 'increasing' / 'decreasing' reorder the free nodes: [OI_position] = [index_remain = index[index_remain]]
+    (current source: the entries of the argsort at the POSITIONS index_remain); [OI_filter] = the argsort restricted
+    to the free nodes ([index[np.isin(index, index_remain)]]). *)
+Inductive order_impl := OI_position | OI_filter.
+Record pvariant := { pv_kernel : kvariant; pv_ctest : cluster_test; pv_ones : ones_size; pv_order : order_impl }.
 
 Definition clustering_mode (ct : cluster_test) (seeds : list Z) : bool :=
   match ct with
   | CT_distinct => length (nodup Z.eq_dec seeds) =? length seeds
   | CT_nonneg => forallb (fun l => (0 <=? l)%Z) seeds
+  | CT_distinct_nonneg => (length (nodup Z.eq_dec seeds) =? length seeds) && forallb (fun l => (0 <=? l)%Z) seeds
   end.
 
 (** _instantiate_vars: (index_seed, index_remain, labels_seed) *)
@@ -100,11 +106,16 @@ Fixpoint scatter (base : list Z) (idx : list nat) (vals : list Z) : list Z :=
 (** the update order. [oracle] is what NumPy returned: the shuffled index_remain for 'random', the argsort of
     the (negated) in-weights for 'decreasing' / 'increasing' -- used as the source uses it:
     [index_remain = index[index_remain]]. *)
-Definition order_index (order : node_order) (oracle : list nat) (index_remain : list nat) : list nat :=
+Definition order_index (oi : order_impl) (order : node_order) (oracle : list nat) (index_remain : list nat)
+  : list nat :=
   match order with
   | ONone => index_remain
   | ORandom => oracle
-  | ODecreasing | OIncreasing => map (nthn oracle) index_remain
+  | ODecreasing | OIncreasing =>
+      match oi with
+      | OI_position => map (nthn oracle) index_remain
+      | OI_filter => filter (fun i => memn i index_remain) oracle
+      end
   end.
 
 Inductive pres (A : Type) := POk (a : A) | POOB (s : site) | POutOfFuel.
@@ -144,7 +155,7 @@ Definition propagation (pv : pvariant) (c : csr) (seeds : list Z) (order : node_
            (weighted : bool) (n_iter : option nat) (fuel : nat) : pres prop_result :=
   let n := length seeds in
   let '(index_seed, index_remain0, labels_seed) := instantiate_vars (pv_ctest pv) seeds in
-  let index_remain := order_index order oracle index_remain0 in
+  let index_remain := order_index (pv_order pv) order oracle index_remain0 in
   let labels0 := scatter (repeat (-1)%Z n) index_seed labels_seed in
   let data := if weighted then c_data c
               else repeat 1%Q (match pv_ones pv with Ones_n => n | Ones_nnz => length (c_indices c) end) in
